@@ -522,7 +522,7 @@ let parse_hop (tok : string) : hop =
           | _ -> failwith "bad iop") (split_nonempty ',' ops))
   | 'Q' -> HIterDrop (name_id body)
   | 'A' -> HScan
-  | 'O' -> HReopen
+  | 'O' | 'N' -> HReopen
   | 'C' | 'W' | 'X' | 'L' | 'T' | 'Z' | 'Y' | 'E' -> HOther
   | _ -> failwith ("bad hop " ^ tok)
 
